@@ -72,10 +72,12 @@ struct decl *g_d;
 bool g_hasinit;
 
 #define ISSTR(i)     (g_ex[i].kind == EXPRSTRING)
-#define W(i)         (g_tb[i].size)                                     /* string element width */
-#define NSTORED(i)   ((g_in[i].end - g_in[i].start) / W(i) < g_ex[i].u.string.size ? (g_in[i].end - g_in[i].start) / W(i) : g_ex[i].u.string.size)
+#define W(i)         (g_tb[i].size)                                     /* string element width: 1, 2 or 4 */
+#define WL(i)        (W(i) == 4 ? 2 : W(i) == 2 ? 1 : 0)                /* its log2: divisions by W are written as shifts (SAT cost) */
+#define NEL(i)       ((g_in[i].end - g_in[i].start) >> WL(i))           /* elements of the array the string initialises */
+#define NSTORED(i)   (NEL(i) < g_ex[i].u.string.size ? NEL(i) : g_ex[i].u.string.size)
 #define SBIT(i)      (g_in[i].start * 8 + (u64)g_in[i].bits.before)      /* first bit initialised by i */
-#define EBIT(i)      (ISSTR(i) ? (g_in[i].start + NSTORED(i) * W(i)) * 8 : g_in[i].end * 8 - (u64)g_in[i].bits.after)   /* one past the last */
+#define EBIT(i)      (ISSTR(i) ? (g_in[i].start + (NSTORED(i) << WL(i))) * 8 : g_in[i].end * 8 - (u64)g_in[i].bits.after)   /* one past the last */
 #define COVERS(i, b) (SBIT(i) <= (b) && (b) < EBIT(i))
 #define RBIT(i)      (g_in[i].end * 8 - (u64)g_in[i].bits.after)        /* range end as initadd sees it */
 
@@ -84,7 +86,7 @@ bool g_hasinit;
 	(g_in[i].start < g_in[i].end && g_in[i].end <= g_size && g_in[i].expr == &g_ex[i] && g_ex[i].type == &g_ty[i] && \
 	 g_in[i].bits.before >= 0 && g_in[i].bits.after >= 0 && \
 	 (ISSTR(i) ? (g_in[i].bits.before == 0 && g_in[i].bits.after == 0 && g_ty[i].kind == TYPEARRAY && g_ty[i].base == &g_tb[i] && \
-	              (W(i) == 1 || W(i) == 2 || W(i) == 4) && (g_in[i].end - g_in[i].start) % W(i) == 0 && \
+	              (W(i) == 1 || W(i) == 2 || W(i) == 4) && ((g_in[i].end - g_in[i].start) & (W(i) - 1)) == 0 && \
 	              g_ex[i].u.string.size >= 1 && g_ex[i].u.string.size <= NS && g_ex[i].u.string.data == (void *)g_data[i]) \
 	            : (g_ty[i].size == g_in[i].end - g_in[i].start && g_ty[i].kind == TYPEINT && \
 	               IMP(g_in[i].bits.before != 0 || g_in[i].bits.after != 0, \
@@ -92,14 +94,14 @@ bool g_hasinit;
 	                   (u64)g_in[i].bits.before + (u64)g_in[i].bits.after < 8 * g_ty[i].size))))
 #define INSIDE_STRING(i, j) \
 	(ISSTR(i) && !ISSTR(j) && g_in[j].bits.before == 0 && g_in[j].bits.after == 0 && g_in[j].start >= g_in[i].start && \
-	 g_in[j].end <= g_in[i].end && g_in[j].end - g_in[j].start == W(i) && (g_in[j].start - g_in[i].start) % W(i) == 0)
+	 g_in[j].end <= g_in[i].end && g_in[j].end - g_in[j].start == W(i) && ((g_in[j].start - g_in[i].start) & (W(i) - 1)) == 0)
 #define VALID2(i, j) \
 	(g_in[i].start <= g_in[j].start && (RBIT(i) <= SBIT(j) || INSIDE_STRING(i, j)))
 
 #define PRE(X) \
 	X(func != 0 && func == g_func && d != 0 && d == g_d && d->type != 0 && hasinit == g_hasinit) \
 	X(d->type->size == g_size && g_size >= 1 && g_size <= (1ull << 40) && d->type->align == g_align) \
-	X((g_align == 1 || g_align == 2 || g_align == 4 || g_align == 8) && g_size % (u64)g_align == 0) \
+	X((g_align == 1 || g_align == 2 || g_align == 4 || g_align == 8) && (g_size & ((u64)g_align - 1)) == 0) \
 	X(g_n >= 0 && g_n <= NI && init == (g_n > 0 ? &g_in[0] : (struct init *)0)) \
 	X(IMP(g_n > 0, g_in[0].next == (g_n > 1 ? &g_in[1] : (struct init *)0) && VALID1(0))) \
 	X(IMP(g_n > 1, g_in[1].next == (g_n > 2 ? &g_in[2] : (struct init *)0) && VALID1(1) && VALID2(0, 1))) \
@@ -110,7 +112,7 @@ bool g_hasinit;
 	X(h.ok_first && h.ok_addr && h.ok_zarg && h.ok_inrange && h.ok_nozam && h.ok_rmw && h.ok_tq)
 
 #define KS           g_kstar
-#define KELEM        ((g_bit / 8 - g_in[KS].start) / W(KS))              /* string element holding g_bit */
+#define KELEM        (((g_bit >> 3) - g_in[KS].start) >> WL(KS))              /* string element holding g_bit */
 #define KCHAR        (W(KS) == 1 ? ((unsigned char *)g_data[KS])[KELEM] : W(KS) == 2 ? ((uint_least16_t *)g_data[KS])[KELEM] : g_data[KS][KELEM])
 
 #define POST(X) \
@@ -133,7 +135,7 @@ bool g_hasinit;
 	X(IMP(g_hasinit && KS >= 0 && !ISSTR(KS), h.lw_off == g_in[KS].start && h.lw_t == &g_ty[KS] && h.lw_v == &g_ev[KS])) \
 	X(IMP(g_hasinit && KS >= 0 && !ISSTR(KS), h.lw_before == g_in[KS].bits.before && h.lw_after == g_in[KS].bits.after)) \
 	/*   string initializer: element i of the literal, as an element-sized constant store at start + i*w */ \
-	X(IMP(g_hasinit && KS >= 0 && ISSTR(KS), h.lw_off == g_in[KS].start + KELEM * W(KS) && h.lw_t == &g_tb[KS] && h.lw_before == 0 && h.lw_after == 0)) \
+	X(IMP(g_hasinit && KS >= 0 && ISSTR(KS), h.lw_off == g_in[KS].start + (KELEM << WL(KS)) && h.lw_t == &g_tb[KS] && h.lw_before == 0 && h.lw_after == 0)) \
 	X(IMP(g_hasinit && KS >= 0 && ISSTR(KS), h.lw_v != 0 && h.lw_v->kind == VALUE_INTCONST && h.lw_v->u.i == KCHAR)) \
 	CANARY(X, !(g_n == 3 && ISSTR(0) && KS == 1 && g_hasinit))
 
@@ -315,6 +317,9 @@ harness(void)
 	ING(u64, g_bit);
 
 	__CPROVER_assume(in_n >= 0 && in_n <= NI);
+#ifdef V_N
+	__CPROVER_assume(in_n == V_N);     /* one CBMC run per list length */
+#endif
 	IN_INIT(0);
 	IN_INIT(1);
 	IN_INIT(2);
